@@ -433,6 +433,40 @@ def run(ctx):
                                                                                   "planted": [os.path.relpath(x, cache) for x in plants]})
         ctx.count("planted_symlink_scripts")
         ctx.rm(base)
+    # (1d) a cache directory whose name is not valid UTF-8 / contains multi-byte characters and spaces: every operation,
+    # then a census of the directory that CONTAINS the cache - nothing may appear next to it
+    for mode in modes:
+        for nm in (b"cache-\xff\xfe", "d\u00e9p\u00f4t \u4e2d".encode(), b"plain"):
+            base = ctx.new_dir(f"odd-{mode.replace('@', '-')}-{len(nm)}")
+            cache_b = os.path.join(os.fsencode(base), nm)
+            cp = "hex:" + cache_b.hex()
+            dest = os.path.join(base, "dest-dir")
+            os.makedirs(dest)
+            m = drv.MODES[mode][1]
+            sri = ref.sri("sha256", b"odd path payload")
+            script = [
+                {"op": "write", "cache": cp, "key": "k", "data": {"hex": b"odd path payload".hex()}},
+                {"op": "writer", "cache": cp, "opts": {"size": 16}, "chunks": [{"hex": b"odd path payload".hex()}]},
+                {"op": "read", "cache": cp, "key": "k"},
+                {"op": "copy", "cache": cp, "key": "k", "to": os.path.join(dest, "out")},
+                {"op": "list", "cache": cp, "mode": "sync"},
+                {"op": "remove", "cache": cp, "key": "k"},
+                {"op": "write", "cache": cp, "key": "k2", "data": {"hex": "6162"}},
+                {"op": "remove_fully", "cache": cp, "key": "k2"},
+                {"op": "remove_hash", "cache": cp, "sri": sri},
+                {"op": "clear", "cache": cp},
+            ]
+            resps = ctx.batch(mode, script)
+            names = set(os.listdir(os.fsencode(base)))
+            extra = names - {nm, b"dest-dir"}
+            for q, r in zip(script, resps):
+                ctx.case(distinct_key=("odd-cache-path", mode, q["op"], len(nm), ev.variant(r)))
+            if extra:
+                ctx.violation(f"odd-cache-path|{mode}|sibling-of-cache-created",
+                              f"with the cache directory named {nm!r} the library created {sorted(extra)[:3]} next to it",
+                              {"steps": [[mode, q] for q in script], "mode": mode})
+            ctx.count("odd_cache_path_scripts")
+            ctx.rm(base)
     # (5) opaqueness of keys
     groups = gen.CONFUSABLE_GROUPS
     for gi, grp in enumerate(groups):
